@@ -110,7 +110,8 @@ func RunChildren(m *M, kind, stream string, lo, hi int64, par int, onDeath func(
 					if stalled {
 						// the child made no progress (no CPU time, same journal entry) and was asked for a goroutine dump
 						if blocked, why := allGoroutinesBlocked(string(tail)); blocked {
-							d.Kind, d.Stderr = "deadlock", "no goroutine can run: "+why
+							d.Kind, d.Stderr = "deadlock", "no goroutine can run, every one waits for a lock or for another goroutine"
+							d.Exit += " after SIGQUIT from the progress watchdog; dump: " + why
 						} else {
 							m.Inconclusive(fmt.Sprintf("%s case %d: child stopped making progress but its goroutine dump is not a deadlock (%s)", stream, last, why))
 							m.AddEvals(last - j.lo + 1)
